@@ -8,6 +8,62 @@ ALL = ["C%02d" % i for i in range(1, 20)]
 
 # property -> (category, technique, level text, level note, design ref)
 CLAIMED = {
+    "C01": ("exploration",
+            "property-based testing (rapid) on a virtual-time rig (real server + real Manager over an in-memory network), exactly-once/intact oracle over token-carrying events",
+            "rapid scenarios inside a testing/synctest bubble: transport {polling, websocket, upgrade with emits falling into it}, recovery off/on, MaxBufferSize {64 KiB, 256 KiB, default}, 1..3 clients, 1..24 events of 25 schemas (16 Go argument shapes with Binary leaves, look-alike event names, attachments and strings of boundary sizes around 32 KiB / 64 KiB) in both directions from 1..4 goroutines per side. Oracle after quiescence + 2 heartbeat periods: per (receiver socket, event) the multiset of tokens equals what was emitted, arguments tree-equal, no error handler fired, no connection closed. Held on everything generated; sampling, not exhaustive.",
+            "Virtual time: interleavings are those the bubble's scheduler produces plus forced yields at hook sites; real TCP stacks are not in the loop. One open finding KF-C01-1 (excluded by construction while its probe still fails, counted).",
+            "DESIGN.md §3 C01"),
+    "C02": ("exploration",
+            "property-based testing (rapid): wire-level check with an independent streaming decoder on a raw Engine.IO endpoint + handler-entry order on the rig",
+            "1..16 emitting goroutines x bursts of 1..50 events x 0..4 attachments, both directions, {polling, websocket, after an upgrade}, optional yield between queue append and sender signal; the receiving end is a raw Engine.IO endpoint whose message packets feed the reference streaming decoder. Oracle: frames of a packet contiguous, attachments in place, per-emitter sequence numbers in order, nothing lost; plus histories with two-at-once and rejected-first emits. Handler-entry order is checked on the sio<->sio rig; it is the open finding KF-C02-1 (a goroutine per packet), whose probe is re-evaluated on every run.",
+            "Order is decided at Engine.IO message level (what the transport hands up), not on raw TCP bytes.",
+            "DESIGN.md §3 C02"),
+    "C03": ("exploration",
+            "property-based testing (rapid) on the rig + a hand-written raw protocol peer that sends duplicate / late / unknown acks",
+            "rapid over ack'd emits in both directions with reply delays around the timeout, disconnects and cuts before the reply, broadcast acks; and a raw peer (Engine.IO by the repo's transport, Socket.IO "
+            "by hand) that answers with duplicate, late, unknown-id and wrong-namespace ACK packets. Oracle: every callback runs at most once; with a timeout exactly once (reply or ErrAckTimeout, never both, "
+            "within timeout + slack of virtual time); the reply values are the ones the handler passed (tree-equal); a case that never returns is a violation (stall -> real-clock confirmation).",
+            "Timing bounds are in virtual time. Any one of several duplicate ACKs is admissible as 'the' reply.",
+            "DESIGN.md §3 C03"),
+    "C04": ("exploration",
+            "small-scope exhaustive enumeration + model-based stateful property testing (rapid) of both adapters against the selection rule",
+            "EXHAUSTIVE: every membership matrix of 3 sockets x 3 rooms (512) x every target subset x every except subset on the in-memory and the session-aware adapter, a second sweep with own-id rooms in T and E; rapid histories over <= 6 sockets, <= 5 rooms: connect/join/leave/disconnect, SocketsJoin/Leave/DisconnectSockets, adapter and through-socket broadcasts (sender exclusion), operator algebra with a reused base operator, FetchSockets; after every step Sockets(R) and SocketRooms(s) equal the model. Oracle: recipients as a multiset == union(T) minus union(E) minus sender. Open finding KF-C04-1.",
+            "Adapter level with recording socket stores; membership changes concurrent with a broadcast and the path through the wire are not decided by this check (see DESIGN.md).",
+            "DESIGN.md §3 C04"),
+    "C05": ("exploration",
+            "property-based testing (rapid) on the rig + raw protocol peer addressing namespaces it did not join",
+            "rapid over 2..4 namespaces on one connection with per-namespace emits, acks, rooms of the same name, middleware rejections and disconnects of a single namespace; raw peer sending events, acks "
+            "and disconnects for namespaces it has not joined / was refused. Oracle: every event, ack and room broadcast is seen only in the namespace it was sent in; a namespace disconnect or rejection "
+            "leaves the others connected and working; traffic for a non-joined namespace never reaches a handler.",
+            "Virtual-time rig; namespaces are static (no dynamic namespace regexp).",
+            "DESIGN.md §3 C05"),
+    "C06": ("fault_enumeration",
+            "fault enumeration (stream cut at every n-th byte offset of every connection, either direction) + rapid lifecycle histories, invariant over end-of-connection reports and server state",
+            "A scripted session (1-2 namespaces, binary echo events, optional upgrade) is run uncut to learn the byte length of every connection in each direction, then re-run with the stream cut at every stride-th byte offset of every connection in either direction (stride 1 in thorough for the first KiB). rapid adds cause {client Disconnect, Manager.Close, server Disconnect, DisconnectSockets, Server.Close, cut, black-hole} x phase {connecting, in middleware, idle, in a burst, during the upgrade} x transport x 1-2 namespaces x optional second cause. Verdict 25 virtual seconds later: each server socket is alive and answers, or ended with exactly one disconnect report with an admissible reason and is in no list / room / adapter state; the old Engine.IO sid answers 'unknown'; clients report once. Twelve defects found this way are repaired.",
+            "Faults are those memnet injects (cut, black-hole, refuse) on the scripted session; complete for the enumerated offsets of that session only.",
+            "DESIGN.md §3 C06"),
+    "C07": ("exploration",
+            "property-based testing (rapid) at Engine.IO level in virtual time with forced yields inside the upgrade and injected link faults",
+            "0..30 numbered text/binary messages both ways at instants spread over the upgrade (microsecond resolution), WebSocket latency 0..20 ms, bursts fired from the yield hooks right before the transport swap on either side and from UpgradeDone; disturbed upgrades: WebSocket link cut at a drawn byte offset 0..400 or black-holed; then traffic after 15 s and 3 heartbeat periods. Oracle: multiset received == sent on both sides, no close, a completed upgrade ends on websocket on both sides, a disturbed one leaves both sides agreeing on the transport with traffic flowing.",
+            "Disturbed upgrades carry no traffic inside the window (virtual-time artifact otherwise); a cut after the completed upgrade is outside the property. Socket.IO-level upgrade traffic is covered by C01's upgrade class.",
+            "DESIGN.md §3 C07"),
+    "C08": ("exploration",
+            "model-based property testing (rapid) of the session-aware adapter against a reference log + exhaustive small episodes",
+            "rapid episodes: broadcasts to rooms / except / volatile / ack'd interleaved with a socket's join, leave, disconnect, restore-with-offset, expiry of the recovery window and the cleaner; "
+            "oracle: RestoreSession returns exactly the packets the reference log says the session missed (addressed to it under its membership at emit time, after its offset, non-volatile, unexpired), in "
+            "order, each once; otherwise (unknown pid, unknown/expired offset, expired session) no session and nothing replayed. Open finding KF-C08-1.",
+            "Adapter level (virtual time for expiry); the wire-level recovery handshake is covered through C01's recovery cases.",
+            "DESIGN.md §3 C08"),
+    "C12": ("exploration",
+            "property-based testing (rapid) of middleware chains on the virtual-time rig against a reference fold",
+            "Chains of 0..5 namespace middlewares (accept / reject with error, string or struct, optionally slow) on / and a custom namespace with 1..4 clients connecting concurrently and a broadcast issued while sockets are in the chain; chains of 0..3 per-socket event middlewares over five event signatures. Oracle: invocation indices 0..j in order, inside a middleware the socket is unlisted, in no room and not connected; all accept => one connect, listed, reachable; reject => connect_error carrying exactly that rejection, no handler, nothing listed; event middlewares see the emitted name and arguments before the handler; rejected => handler never runs.",
+            "Virtual-time rig; five event signatures.",
+            "DESIGN.md §3 C12"),
+    "C14": ("exploration",
+            "property-based testing (rapid) at Engine.IO level in virtual time with silently black-holed and delayed links",
+            "pingInterval/pingTimeout in {1,2,3} s x {polling, websocket, during the upgrade}. Dead peers: the link is black-holed at a drawn instant (1 ms resolution, biased to ping instants) in one or both directions; oracle: each side closes exactly once with a ping-timeout reason no later than (last delivered byte from the peer) + interval + timeout + 500 ms (+5 s close wait on WebSocket). Live peers: 30..200 idle periods with latency up to pingTimeout/2 and out-of-phase traffic; oracle: no close at all, pings keep coming, messages still flow.",
+            "The bound is checked on the bubble's virtual clock: scheduler and GC pauses of a real deployment are not modelled.",
+            "DESIGN.md §3 C14"),
     "C11": ("exploration",
             "property-based round-trip/differential testing (rapid) + exhaustive length enumeration + native fuzzing",
             "Generated-input search against an independent reference codec: rapid round-trip/conformance/EncodedLen checks for single packets and "
@@ -42,9 +98,13 @@ CLAIMED = {
             "Batcher part only so far (server-side limits per transport are being built on the rig).",
             "DESIGN.md §3 C13"),
     "C15": ("exploration",
-            "property-based testing (rapid) of the back-off function against its stated bounds",
-            "rapid over (delay, max, jitter, attempt) including overflow attempts, each evaluated 8 times: 0 < d <= max, first delay within the jitter band around ReconnectionDelay, no panic.",
-            "Function level only so far (the reconnect state machine with outages is being built on the rig).",
+            "property-based testing (rapid): back-off function against its bounds + reconnect state machine with generated outages on the virtual-time rig",
+            "(a) rapid over (delay, max, jitter, attempt) including overflow attempts, each evaluated 8 times: 0 < d <= max, first delay within the jitter band, no panic. (b) the real Manager against the real "
+            "server over memnet in a synctest bubble: the server is taken away (links cut, dials refused) and given back after a drawn time (or never, or twice), with ReconnectionAttempts 0..5, three delays, "
+            "four max factors, three jitters, and 0..10 emits (plain / volatile / ack-with-timeout) before, during and after the outage and while the CONNECT is pending; oracle on the manager's reconnect_* "
+            "events with virtual timestamps (attempt numbers, every gap in (0, max], first gap in the jitter band, exactly N attempts then reconnect_failed once, then silence; reconnect when reachable) and "
+            "on delivery (offline plain emits exactly once and in order after the reconnect, volatile never, timed-out ack emits purged with ErrAckTimeout once).",
+            "Jitter comes from the library's use of math/rand's global source, so replays of cases with jitter > 0 are not bit-reproducible. Order of the offline flush is read from long-polling bodies only.",
             "DESIGN.md §3 C15"),
     "C17": ("exploration",
             "exhaustive request matrix + rapid schedules with a forced yield point (virtual time)",
